@@ -22,6 +22,7 @@ def sh(cmd, cwd=None, timeout=1800, env=None):
 def main():
     src, name = sys.argv[1], sys.argv[2]
     checks, tier, seeds = None, "quick", ["1"]
+    merge = False
     a = sys.argv[3:]
     while a:
         if a[0] == "--checks":
@@ -30,10 +31,18 @@ def main():
             tier = a[1]
         elif a[0] == "--seeds":
             seeds = a[1].split(",")
+        elif a[0] == "--merge":  # keep the results of the earlier verification for checks not re-run now (cross-property runs)
+            merge = True
+            a = a[1:]
+            continue
         a = a[2:]
     meta = json.load(open(os.path.join(src, "meta.json")))
     history = meta.pop("history", [])
-    if "verification" in meta:  # re-verification: keep the earlier result in the history
+    earlier_checks = {}
+    if "verification" in meta and merge:
+        earlier_checks = meta.pop("verification").get("checks", {})
+        meta.pop("caught_by", None)
+    elif "verification" in meta:  # re-verification: keep the earlier result in the history
         history.append(dict(verification=meta.pop("verification"), caught_by=meta.pop("caught_by", None)))
     if checks is None:
         checks = [meta.get("property", name.split("-")[0])]
@@ -73,7 +82,7 @@ def main():
         rc, out = sh(demo_cmd, cwd=wt)
         ver["demo_with_patch"] = "fail" if rc != 0 else "PASSES (change not demonstrated)"
         os.remove(demo_dst)
-        ver["checks"] = {}
+        ver["checks"] = dict(earlier_checks)
         for cid in checks:
             for sd in seeds:
                 t0 = time.time()
